@@ -218,6 +218,8 @@ class GroupInfo:
                 r = alg.elem(D[0]).ad()
             elif key == "bracket":
                 r = (alg.elem(D[0]) * alg.elem(D[1])).param
+            elif key == "algM":
+                r = alg.elem(D[0]).to_Matrix()
             elif key in ("Jl", "Jr", "Jl_inv", "Jr_inv"):
                 e = alg.elem(D[0])
                 r = {"Jl": e.left_jacobian, "Jr": e.right_jacobian, "Jl_inv": e.left_jacobian_inv, "Jr_inv": e.right_jacobian_inv}[key]()
